@@ -1044,7 +1044,9 @@ def run_inter_o(inp):
             rank_ok = rank_ok and np.linalg.matrix_rank(Ru, tol=10 * rtol) == d
             # member u of the composite answer spans the same subspace as the single-object call on the same members
             Rs = unit(np.asarray(P.Subspace(Af[i].copy()).intersect(P.Subspace(Bf[j].copy())).proj_data))
-            single_ok = single_ok and Rs.shape == Ru.shape and np.linalg.matrix_rank(np.vstack([Rs, Ru]), tol=100 * rtol * cond) == d
+            # compared row by row through least-squares distances to the other span (a numerical rank of the stacked rows is fragile when the
+            # rows of a badly conditioned basis are themselves nearly parallel)
+            single_ok = single_ok and Rs.shape == Ru.shape and max(_span_dist(Ru, Rs), _span_dist(Rs, Ru)) <= 100 * rtol * cond
     out.update(inA=inA, inB=inB, rank_ok=bool(rank_ok), cond=cond, single_ok=bool(single_ok), ratio=ratio)
     return out
 
